@@ -7,7 +7,10 @@ import pandas as pd
 
 # (days, tz, start hour of the first day, end hour of the last day, baseline?)
 VARIANTS = ["4d:America/Chicago:0:23:base", "10d:Europe/London:7:15:rep", "40d:Asia/Kolkata:0:23:base", "400d:America/Chicago:5:20:base",
-            "30d:America/Chicago:0:23:empty-observed", "6d:America/Chicago:3:23:rep"]
+            "30d:America/Chicago:0:23:empty-observed", "6d:America/Chicago:3:23:rep",
+            # first / last supplied day is a clock-change day (23 and 25 hours)
+            "10d@2020-02-28:America/Chicago:0:23:rep", "10d@2020-10-23:America/Chicago:4:23:base", "5d@2020-03-08:America/Chicago:0:23:rep",
+            "8d@2020-10-25:Europe/London:0:23:base"]
 _st = {}
 
 
@@ -16,12 +19,14 @@ def init():
     _st["em"] = em
 
 
-def _frame(days, tz, h0, h1, ghi, seed):
+def _frame(days, tz, h0, h1, ghi, seed, start_date=None):
     start = pd.Timestamp("2020-02-27 00:00", tz=tz) if days < 100 else pd.Timestamp("2019-10-20 00:00", tz=tz)   # spans a DST change / leap day
-    full = pd.date_range(start, start + pd.Timedelta(days=days) - pd.Timedelta(hours=1), freq="h")
-    first = full[0].normalize() + pd.Timedelta(hours=h0)
-    last_day = full[-1].normalize()
-    idx = full[(full >= first) & (full <= last_day + pd.Timedelta(hours=h1))]
+    if start_date:
+        start = pd.Timestamp(start_date + " 00:00", tz=tz)
+    end = (start.tz_localize(None) + pd.Timedelta(days=days)).tz_localize(tz)       # local midnight `days` calendar days later
+    full = pd.date_range(start, end, freq="h", inclusive="left")
+    last_date = full[-1].date()
+    idx = full[~((full.date == full[0].date()) & (full.hour < h0)) & ~((full.date == last_date) & (full.hour > h1))]
     rng = np.random.default_rng(seed)
     hr = idx.hour.to_numpy()
     doy = idx.dayofyear.to_numpy()
@@ -36,8 +41,9 @@ def _frame(days, tz, h0, h1, ghi, seed):
 def realise(cin, variant):
     em = _st["em"]
     d, tz, h0, h1, mode = variant.split(":")
+    d, _, start_date = d.partition("@")
     days, h0, h1 = int(d[:-1]), int(h0), int(h1)
-    fr = _frame(days, tz, h0, h1, cin["ghi"], days)
+    fr = _frame(days, tz, h0, h1, cin["ghi"], days, start_date or None)
     n = len(cin["cells"])
     # a little background damage elsewhere in the frame, so that the pad counters are exercised
     rng = np.random.default_rng(days + n)
@@ -91,9 +97,11 @@ def realise(cin, variant):
         out["res"] = type(ex).__name__
         out["err"] = str(ex)[:200]
         return {"in2": cin2, "out": out}
-    d0 = given.index.min().normalize()
-    d1 = given.index.max().normalize() + pd.Timedelta(hours=23)
-    exp_idx = pd.date_range(d0.tz_convert("UTC"), d1.tz_convert("UTC"), freq="h").tz_convert(tz)
+    # every real clock hour of every local day from the first to the last supplied day (decided by local date, not by adding
+    # hours to a midnight: the first or last day may have 23 or 25 hours)
+    first_date, last_date = given.index.min().date(), given.index.max().date()
+    span = pd.date_range(given.index.min().tz_convert("UTC") - pd.Timedelta(hours=26), given.index.max().tz_convert("UTC") + pd.Timedelta(hours=26), freq="h").tz_convert(tz)
+    exp_idx = span[(span.date >= first_date) & (span.date <= last_date)]
     out["index_ok"] = bool(res.index.equals(exp_idx) and not res.index.has_duplicates)
     if not out["index_ok"]:
         return {"in2": cin2, "out": out}
